@@ -327,6 +327,12 @@ def run(tier, seed, model_ok, translator, search=False):
             if what == "isspace":
                 if ans != impl:
                     out.mismatch("Lean isSpace table vs CPython", "all code points", impl, ans)
+            elif what == "parse_blocks":
+                from harness import blocks_common as bc
+                if isinstance(ans, dict) and "error" in ans:
+                    out.mismatch("driver error", case, impl, ans)
+                elif bc.canon_model(ans) != impl:
+                    out.mismatch("parse_blocks(to='cellgrid') vs Lean parseBlocks", case, impl, bc.canon_model(ans))
             else:
                 if isinstance(ans, dict) and "error" in ans:
                     out.mismatch("driver error", case, impl, ans)
@@ -480,6 +486,11 @@ def _one(rows, case, out, ops, pending, model_ok, prefix_rng, record):
         if prefix_rng.random() < 0.35:
             other = [["**o"], ["all"], ["a", "b"], ["-", "text"], ["1", "x"], [], ["**stub"], [], [":t"], ["***d"], ["v"]]
             interleaved_ok(rows, other if prefix_rng.random() < 0.5 else rows, out, case)
+    if model_ok and prefix_rng is not None and len(rows) % 3 == 0:
+        # the whole read with the library's own handlers (theorem `cellgrid_delivers_every_block`): model vs code
+        from harness import blocks_common as bc
+        ops.append(bc.model_op(rows, to="cellgrid"))
+        pending.append(("parse_blocks", case, bc.impl_parse_blocks(rows, to="cellgrid")))
     if model_ok:
         ops.append({"op": "segment", "rows": grid_to_json(rows)})
         pending.append(("segment", case, [{"ty": b["ty"], "first": b["first"], "rows": grid_to_json(b["rows"])}
